@@ -31,6 +31,8 @@ TAINTS = [
     "1/3+VY_CANARY.append(11)", "2/7 or VY_CANARY.append(12)", "-5/2*[VY_CANARY.append(13)]", "1+VY_CANARY.append(14)",
     "0x10 if VY_CANARY.append(15) else 1", "3.5 and VY_CANARY.append(16)", "1e3+len([VY_CANARY.append(17)])",
     "7 /2+print(VY_CANARY.append(18))", "(VY_CANARY.append(19),)", "'a'+str(VY_CANARY.append(20))",
+    "1/3+__import__('builtins').VY_CANARY.append(21)", "1/3+print('X')", "2/7*print('host')", "1/2+__import__('os').getpid()",
+    "5/7-len(__import__('builtins').VY_CANARY.append(22) or [])", "1/3 + exec('import builtins; builtins.VY_CANARY.append(23)')",
 ]
 USES = ["E", "†", "Ė", "E,", "†,", ":E$†", "w E", "wƛE;", "S E", "E E", "J E", "₴", ",", "…E", "vE", "⁽E†", "ßE",
         "λE;†", "@f|E;@f;", "⟨E⟩", "(E)", "[E|†]", "{E|X}", "£¥E", "→a←aE", "⅛¾E", "hE", "tE", "ṘE", "dE", "2*E", "`1`+E", "qE", "q†"]
